@@ -38,8 +38,8 @@ ASSUMPTIONS = ['computechi2: "full rank" is decided exactly (rational arithmetic
                'HMF: data have no all-zero columns (documented limitation) and every row/column keeps more good pixels than K; for epsilon > 0 '
                '"optimum given the other factor" is read as the per-pixel optimum with the neighbouring pixels held at their previous values',
                'HMF non-negative mode: only sign, normalisation and reproducibility are required of the multiplicative updates',
-               'pca_solve: nreturn = nkeep, no spectrum is entirely masked or constant; projections are compared at 1e-4 relative because the '
-               'returned eigenspectra are float32']
+               'pca_solve: nreturn = nkeep, no spectrum is entirely masked or constant; projections are compared at (1e-6 + 2e-8*cond) relative because the '
+               'returned eigenspectra are float32; cond > 1e5 skipped']
 
 INTB = [3.0, -1.0, 2.0, 5.0, -4.0, 1.0]
 HALF = Fraction(1, 2)
@@ -290,6 +290,7 @@ def hmf_root(cfg):
     nn = cfg['mode'] == 'nn'
     S, W = hmf_data(cfg['data'], nn, cfg['mask'])
     S0, W0 = S.copy(), W.copy()
+    np.random.seed(HARNESS_RNG_STATE)   # the global RNG never carries history into a case; HMF reseeds it with cfg['seed']
     h = HMF(S, W, K=cfg['K'], n_iter=0, seed=cfg['seed'], nonnegative=nn, epsilon=cfg['eps'])
     h.iterate()
     return h, S0, W0, S, W
@@ -315,6 +316,7 @@ def apply_op(h, op):
 
 
 COND_MAX = 1e4
+HARNESS_RNG_STATE = 20260929
 
 
 class IllConditioned(Exception):
@@ -455,7 +457,7 @@ def check_hmf_path(case):
     return bad, 'replayed'
 
 
-def explore_hmf(acc, cfg, depth):
+def explore_hmf(acc, cfg, depth, seen):
     """BFS over step sequences from one root; states merged on exact (a, g) bytes."""
     ops = LS_OPS if cfg['mode'] == 'ls' else NN_OPS
     base = dict(cfg, f='hmf')
@@ -472,9 +474,12 @@ def explore_hmf(acc, cfg, depth):
         acc.skip('hmf:root:kmeans-returned-fewer-centroids')
         return
     sid = lambda a, g: a.tobytes() + b'|' + g.tobytes()
-    seen = {sid(a, g)}
-    frontier = [([], a, g)]
     acc.extra['hmf_roots'] += 1
+    if sid(a, g) in seen:
+        acc.extra['hmf_roots_merged'] += 1
+        return
+    seen.add(sid(a, g))
+    frontier = [([], a, g)]
     acc.extra['states'] += 1
     for d in range(depth):
         nxt = []
@@ -518,6 +523,7 @@ def check_hmfrun(case):
     outs = []
     bad = []
     S0, W0 = hmf_data(cfg['data'], nn, cfg['mask'])
+    np.random.seed(HARNESS_RNG_STATE)   # pinned once for the pair of runs: only HMF's own seeding can make them equal
     for rep in range(2):
         S, W = S0.copy(), W0.copy()
         try:
@@ -554,8 +560,11 @@ def check_hmfrun(case):
         ap, gp = hb.iterate()
         Sx, Wx = np.asarray(h.spectra, dtype=float), np.asarray(h.invvar, dtype=float)
         up = objective_up(Sx, Wx, cfg['eps'], np.asarray(ap, dtype=float), np.asarray(gp, dtype=float), a1.astype(float), g1.astype(float))
-        if up:
-            bad.append(('HMF.iterate:chi-square-increases' + et, 'iteration %d: %s' % (case['n_iter'], up)))
+        if up and not cfg['eps']:
+            bad.append(('HMF.iterate:chi-square-increases', 'iteration %d: %s' % (case['n_iter'], up)))
+        elif up:
+            # with epsilon > 0 the normalisation rescales g and the penalty is not scale invariant: recorded, not required
+            label += ':objective-up'
         # refinement: the real iteration is the path (astep gstep reorder norm)^n of the transition system
         hr, _, _, _, _ = hmf_root(cfg)
         for _ in range(case['n_iter']):
@@ -592,10 +601,11 @@ def check_pca(case):
         A = E.T * sw[:, None]
         sv = np.linalg.svd(A, compute_uv=False)
         cond = sv[0] / sv[-1] if sv[-1] > 0 else float('inf')
-        if cond > 1e3:
+        if cond > 1e5:
             return None, 'skip:pca-ill-conditioned'
         x = np.linalg.lstsq(A, S0[i] * sw, rcond=None)[0]
-        if not np.all(np.abs(ac[i] - x) <= 1e-4 * (1.0 + float(np.abs(x).max()))):
+        # the returned eigenspectra are float32: the projection on them is known to about cond * 6e-8
+        if not np.all(np.abs(ac[i] - x) <= (1e-6 + 2e-8 * cond) * (1.0 + float(np.abs(x).max()))):
             bad.append(('pca_solve:acoeff-not-weighted-projection', 'spectrum %d: got %s expected %s' % (i, ac[i].tolist(), x.tolist())))
             break
     if np.any(np.diff(ev) > 1e-12 * (1 + np.abs(ev).max())) or ev.shape != (nkeep,):
@@ -676,7 +686,7 @@ def tasks(tier):
                 for eps in (None, 0.5):
                     for mk in ('none', 'scatter', 'pairs'):
                         t.append({'f': 'hmf', 'mode': mode, 'data': data, 'K': K, 'eps': eps, 'maskkind': mk,
-                                  'seeds': [0, 1] if not T else [0, 1, 2, 3], 'depth': (4 if data == 'D1' else 3) if not T else 5, 'T': T})
+                                  'seeds': [0, 1, 2] if not T else [0, 1, 2, 3, 4, 5], 'depth': (5 if data == 'D1' else 4) if not T else (6 if data == 'D1' else 5), 'T': T})
     for mode in ('ls', 'nn'):
         for data in datas[:2]:
             for eps in (None, 0.5):
@@ -753,15 +763,16 @@ def run_task(task):
                     _do(acc, {'f': 'pcomp', 'x': X, 'standardize': std, 'covariance': cov}, True)
     elif f == 'hmf':
         for mask in mask_menu(task['data'], task['maskkind']):
+            seen = set()
             for seed in task['seeds']:
                 cfg = {'mode': task['mode'], 'data': task['data'], 'K': task['K'], 'eps': task['eps'], 'mask': mask, 'seed': seed}
-                explore_hmf(acc, cfg, task['depth'])
+                explore_hmf(acc, cfg, task['depth'], seen)
     elif f == 'hmfrun':
         for K in (1, 2, 3):
             for eps in (None, 0.5):
                 for mk in ('none', 'scatter', 'pairs'):
                     for mask in mask_menu(task['data'], mk):
-                        for seed in ((0, 1) if not T else (0, 1, 2, 3)):
+                        for seed in ((0, 1, 2) if not T else (0, 1, 2, 3, 4, 5)):
                             for n_iter in (1, 2, 3):
                                 case = {'f': 'hmfrun', 'mode': task['mode'], 'data': task['data'], 'K': K, 'eps': eps, 'mask': mask,
                                         'seed': seed, 'n_iter': n_iter}
